@@ -32,7 +32,7 @@ def parse(name):
     sde_type = 'ito' if '_i_' in name else 'stratonovich'
     method = name.split('_' + sde_type[0] + '_')[0]
     noise = [x for x in ('diagonal', 'additive', 'scalar', 'general') if f"_{x}_" in name][0]
-    return method, sde_type, noise, name.endswith('_gf')
+    return method, sde_type, noise, name.endswith('_gf') or name.endswith('_gf_warm')
 
 
 def jets_used(D, letter, time_only=False):
